@@ -124,6 +124,10 @@ def run(chk, tier, scale=1.0):
     mjobs = [dict(build=(bplain if k % 2 else b), n=n_, seed=chk.seed * 100 + k, mixed=(k % 4 < 2), props=PROPS)
              for k, n_ in enumerate([31, 32, 32, 31, 33, 40, 33, 34] * (1 if tier == "quick" else 6))]
     prun.fold(chk, "C02", vcommon.pmap(c06._many_worker, mjobs))
+    # the module interface no shipped module uses (set address / host name / user name, challenge, kill, accept, holds ...), driven
+    # through the fixture module site_api and compared line for line with a model of the core (lib/sitemodel.py)
+    import sitemodel
+    sitemodel.fold_site(chk, "C02", tier, scale, 1013, ('C02',))
     chk.rule = ("all 120 arrival orders of {host result, ident, nick, user info, password} x 7 service tables (each protocol alone, mixed, two login services, none) "
                 "x reply policies (immediately OK / OK+account, at the end, reversed, never, NO first, mixed kinds) x request timeout fired through the guarded hook before "
                 "position 0..5 or never x hurry-up position x password mode strings (+x, +!, -, +x!, none, a second password); plus random multi-client histories; "
@@ -139,4 +143,7 @@ def run(chk, tier, scale=1.0):
 
 
 def replay(chk, rep):
+    if rep["witness"].get("site"):
+        import sitemodel
+        return sitemodel.replay_site(chk, rep["witness"], "C02", ('C02',))
     return prun.replay_witness(chk, rep, PROPS)
